@@ -432,6 +432,9 @@ class Registry:
         self.contracts = {}        # qualified name -> Contract
         self.by_func = {}          # function object -> Contract
         self.models = {}           # callable -> model
+        self.scoped_models = {}    # property id -> {callable -> model}: Module.model(...) registrations apply only
+        #                            while a function of that property is verified (no cross-property clashes)
+        self.current_props = ()    # property ids of the function under verification
         self.loops = {}            # (qualified name, ordinal) -> LoopSpec
         self.loops_by_code = {}
         self.under_verification = None
@@ -477,6 +480,10 @@ class Registry:
 
     def model_for(self, f):
         try:
+            for p in self.current_props:
+                m = self.scoped_models.get(p, {}).get(f)
+                if m is not None:
+                    return m
             return self.models.get(f)
         except TypeError:
             return None
